@@ -99,10 +99,38 @@ def uint_bytes(v, width=None):
     return v.to_bytes(w, 'big')
 
 
+def nid_comps(nid):
+    """the encoded components of a node id (or any name) as the cases write it: a URI of generic components ('/n1/x'), or
+    the explicit form '~<type>:<value hex>/<type>:<value hex>...' - any component type, any value bytes, written by the
+    independent TLV writer ('~' alone is the root name)"""
+    if nid.startswith('~'):
+        out = []
+        for part in nid[1:].split('/'):
+            if part:
+                t, _, v = part.partition(':')
+                out.append(tlv(int(t), bytes.fromhex(v)))
+        return out
+    return [tlv(8, c.encode()) for c in nid.split('/') if c]
+
+
+def nid_pairs(nid):
+    """[(type, value bytes)] of an explicit node id"""
+    return [(int(p.partition(':')[0]), bytes.fromhex(p.partition(':')[2])) for p in nid[1:].split('/') if p]
+
+
+def nid_make(pairs):
+    return '~' + '/'.join('%d:%s' % (t, bytes(v).hex()) for t, v in pairs)
+
+
+def nid_uri(nid):
+    """an explicit node id as a URI in which every component carries its type number and every value byte is escaped
+    (the spelling Name.from_str reads back to exactly these bytes)"""
+    return '/' + '/'.join('%d=%s' % (t, ''.join('%%%02X' % b for b in v)) for t, v in nid_pairs(nid))
+
+
 def name_bytes(uri):
-    """encoded Name of a URI like /n1/x (generic components only)"""
-    comps = [c for c in uri.split('/') if c]
-    return tlv(7, b''.join(tlv(8, c.encode()) for c in comps))
+    """encoded Name of a URI like /n1/x (generic components only) or of an explicit node id (see nid_comps)"""
+    return tlv(7, b''.join(nid_comps(uri)))
 
 
 def component(rng, entries):
@@ -147,8 +175,11 @@ def component(rng, entries):
         body[k] = (name_bytes(n) if n is not None else b'') + tlv(0xcc, v)
         return wrap(body), 'uint-width-%d' % w
     if r < 0.62:          # non-minimal Type / Length forms
-        return tlv(0xc9, b''.join(tlv(0xca, b, rng.choice([None, 3]), rng.choice([3, 5])) if i == k else tlv(0xca, b)
-                                  for i, b in enumerate(body)), None, rng.choice([None, 3])), 'non-minimal-tl'
+        # (a 3-byte Length form cannot carry more than 65535: the 5-byte form then)
+        inner = b''.join(tlv(0xca, b, rng.choice([None, 3]), max(rng.choice([3, 5]), 5 if len(b) > 0xffff else 0))
+                         if i == k else tlv(0xca, b) for i, b in enumerate(body))
+        lform = rng.choice([None, 3])
+        return tlv(0xc9, inner, None, 5 if lform and len(inner) > 0xffff else lform), 'non-minimal-tl'
     if r < 0.72:          # inner Lengths lie: an element reaches past the end of the (complete) component
         inner = b''.join(tlv(0xca, b) for b in body)
         cut = rng.randint(1, max(1, min(6, len(inner) - 1)))
